@@ -617,7 +617,7 @@ class PteraTransformer(NodeTransformer):
 
     def visit_FunctionDef(self, node, root=False):
         if not root:
-            return node
+            return self._visit_signature(node)
 
         new_body = []
 
@@ -729,14 +729,26 @@ class PteraTransformer(NodeTransformer):
 
     visit_Nonlocal = visit_Global
 
+    def _visit_signature(self, node):
+        # The body of a nested function is left alone, but its default
+        # values (and its decorators) are evaluated in this function
+        args = node.args
+        args.defaults = [self.visit(dflt) for dflt in args.defaults]
+        args.kw_defaults = [
+            dflt and self.visit(dflt) for dflt in args.kw_defaults
+        ]
+        if hasattr(node, "decorator_list"):
+            node.decorator_list = [self.visit(d) for d in node.decorator_list]
+        return node
+
     def visit_AsyncFunctionDef(self, node):
         # A nested coroutine is left alone, like any nested function
-        return node
+        return self._visit_signature(node)
 
     def visit_Lambda(self, node):
         # A lambda is a nested function: what it binds, yields or returns
         # is its own business
-        return node
+        return self._visit_signature(node)
 
     def visit_For(self, node):
         new_body = self.generate_interactions(node.target)
@@ -949,9 +961,15 @@ class PteraTransformer(NodeTransformer):
         elif isinstance(targets[0], (ast.Tuple, ast.List)):
             return _unpack(targets[0].elts)
         else:
-            return self.make_interaction(
-                targets[0], None, self.visit(node.value), orig=node
-            )
+            value = self.visit(node.value)
+            target = targets[0]
+            if isinstance(target, (ast.Subscript, ast.Attribute)):
+                # The object and the index are expressions of this function
+                # (they may contain an assignment expression)
+                target.value = self.visit(target.value)
+                if isinstance(target, ast.Subscript):
+                    target.slice = self.visit(target.slice)
+            return self.make_interaction(target, None, value, orig=node)
 
     def visit_AugAssign(self, node):
         if isinstance(node.target, ast.Name) and self.should_instrument(
